@@ -6,10 +6,12 @@ import z3
 
 from symx.core import SymReal, lift
 
-from .common import PREFIX, And, Case, call, check_names, exact_eq, payload
+import numpy as np
+
+from .common import PREFIX, And, Case, Iff, Implies, Not, Or, band, call, check_names, elements, exact_eq, payload
 from .common import close as band_close
-from .registry_common import (BAR, FOO, NAMES, Log, Model, Probe, describe, dims_equal, mc_stats, merge_mc, obs_value, probes,
-                              req, state_id)
+from .registry_common import (BAR, BASE_OF_DIM, FOO, NAMES, TABLE, Log, Model, Probe, describe, dims_equal, mc_stats, merge_mc, obs_value,
+                              probes, req, state_id)
 
 LEVEL = "model_checking"
 MANIFEST = dict(
@@ -20,12 +22,20 @@ MANIFEST = dict(
           "construction from atomic, prefixed and compound strings, array creation, conversion, multiplication, with the other "
           "ways of asking a registry (reg[...], `in`, products/quotients through Unit.simplify, LaTeX of a compound, keys / "
           "prefixable_units / list_same_dimensions, unit_system_id) and with re-use of units and quantities made earlier (every "
-          "copy route, arithmetic)) is executed on the real UnitRegistry / Unit / unyt_array code with every scale a fresh z3 real; "
+          "copy route, arithmetic, and EPOCH-MIXED pairs: a quantity made earlier meets one made now from the same string in the same "
+          "registry under + - == < * / .to / convert_to_units / to_value / get_conversion_factor / Unit ==)) is executed on the real "
+          "UnitRegistry / Unit / unyt_array code with every scale a fresh z3 real; "
           "after the history (hence after every prefix, the set of histories being prefix-closed) and, in further families, after "
           "every single step, each probe string is resolved against the live registry and z3 decides whether its scale term and "
           "dimensions equal those of a 20-line reference model (itself checked, state by state, against a cold registry built by the "
           "real code from the model's contents); the rows the registry lists must be implied by the model; units made earlier and "
-          "their copies must keep their term. Histories are enumerated (discrete), scales and payloads are solved for."),
+          "their copies must keep their term; the unit attached to a result computed from operands made now must be what its own "
+          "label says under the current contents. A further family repeats a battery of CANCELLING products / quotients (the unit "
+          "rule cancels a factor of a compound against the other operand and so reads the rows of the individual factors) at the "
+          "start and after every step of every history of edits that exchange scales and dimensions between the factors - among "
+          "them the edit pairs that leave scale and dimension of the compound unchanged, i.e. every key a memo could be built on; "
+          "there the scales are numerals (sympy cannot cancel z3 terms) and the payloads symbolic. Histories are enumerated "
+          "(discrete), scales and payloads are solved for."),
     design="DESIGN.md section 4 C12",
     technique="explicit-state bounded model checking over operation histories, symbolic (z3 real) data, reference-model refinement check per state; counterexample replay on plain unyt")
 EXPLANATION = (
@@ -44,36 +54,63 @@ EXPLANATION = (
     "that resolves); reg[s] / s in reg / the listings answer from the current contents; unit_system_id == the id of a fresh "
     "registry holding the same table; units created earlier keep the term they had, every copy of them (Unit.copy shallow/deep, "
     "copy.copy, copy.deepcopy, array .copy(), .units.copy()) has that old term with the string memo cold and warm, and the same "
-    "strings requested right after the copies have the current term; arithmetic with old units carries their old term. z3 decides "
+    "strings requested right after the copies have the current term; arithmetic with old units carries their old term. "
+    "Epoch-mixed operands (old_mix): every quantity made earlier (by old_mix itself from xfoo, kxfoo, xfoo*xbar [xnew, kxnew], by "
+    "arr_create, by ask_prod) meets a quantity made NOW from the same string against the same registry object - same expression, "
+    "same registry, and after an edit another scale or dimension: SI(old + new), SI(new + old), SI(new - old) == x*old_term +- "
+    "y*current_term (band relative to the operands), old == new / old < new decided on SI magnitudes (near-ties excused), "
+    "SI(old * new), SI(old / new), old.to(string) / copy.convert_to_units(string) / old.to_value(string) == x*old_term/current_term "
+    "labelled with the current term, Unit.get_conversion_factor == old_term/current_term, Unit == only inside the band; after a "
+    "re-add with another dimension + - < and the conversions must raise UnitOperationError / UnitConversionError and == is False. "
+    "Label consistency (label_ok): the unit attached to a product / quotient of operands made now has the scale and dimension its "
+    "own expression evaluates to in the model (a result labelled xbar carrying a former scale of xbar is stale although its SI "
+    "magnitude is right). Family 'cancel': numeral scales (A, B) in {(2, 3), (0.5, 1.25)}, xfoo = A length (prefixable), xbar = B "
+    "time; 12 edits store A or B into either symbol by modify-float / re-add (same or other dimension) / modify-by-quantity (other "
+    "dimension) (+ remove); the battery = (xfoo*xbar)/m, (xfoo*xbar)/s, (xfoo*xbar)*(1/m), m/(xfoo*xbar), kxfoo/xfoo, "
+    "kxfoo*(xbar/xfoo), in-place /=, np.divide(out=), Unit/Unit .simplify() x3, in_mks(), every operand made from its string at "
+    "that moment with a symbolic payload, is run at the start and after EVERY step, so each call is repeated across every edit with "
+    "all memo layers (string memo, written-back rows, lru-cached unit rules keyed by Unit hash/eq, _check_em_conversion) warm; "
+    "oracle: SI magnitude and dimensions from the model's rows + label consistency. z3 decides "
     "each obligation for all positive scales / all payloads at once; a stale memo shows as a term that still mentions an old symbol."
 )
 BOUNDS = {
     "quick": "4 symbols on top of the default table: xfoo (prefixable), xbar present at the start; kxfoo (stand-alone symbol that shadows "
-             "kilo-xfoo) and xnew (prefixable) absent at the start. Five families, ALL histories of length <= 3 over each alphabet "
-             "(12139 histories; prefix-closed, so every prefix is observed too), grouped into cases by their first operation (the first two in the widest families): "
-             "end = 20 operations (6 edits of xfoo/xbar, 6 constructions/uses, 6 ways of asking the registry, copies of / arithmetic "
-             "with earlier units): 8421; every = 6 edit ops with a full probe round after every step: 259; shadow = 13 operations "
+             "kilo-xfoo) and xnew (prefixable) absent at the start. Six families, ALL histories up to a length over each alphabet "
+             "(14674 histories; prefix-closed, so every prefix is observed too), grouped into cases by their first operation (the first two in the widest families): "
+             "end = 21 operations (6 edits of xfoo/xbar, 6 constructions/uses, 6 ways of asking the registry, copies of / arithmetic "
+             "with earlier units, old_mix = epoch-mixed pairs) to length 3: 9724; every = 6 edit ops with a full probe round after every step, "
+             "length 3: 259; shadow = 14 operations "
              "(add/modify/remove/define_unit of kxfoo, add/modify/remove of xfoo, construction/array/conversion of kxfoo strings, "
-             "reg[...]/in/product): 2380; shadow-every = 6 edits of kxfoo and xfoo with a probe round after every step: 259; "
-             "fresh = 9 operations around the new symbol xnew (add/modify/remove/define_unit, construction of xnew, kxnew, "
-             "xnew*xbar before and after, asks, remove of xfoo): 820. 7 (10 in the last three families) probe strings + the "
-             "kxfoo/xfoo conversion factor + the listed-rows check per observed state; scales/values symbolic",
+             "reg[...]/in/product, old_mix) to length 3: 2955; shadow-every = 6 edits of kxfoo and xfoo with a probe round after every step: 259; "
+             "fresh = 10 operations around the new symbol xnew (add/modify/remove/define_unit, construction of xnew, kxnew, "
+             "xnew*xbar before and after, asks, remove of xfoo, old_mix) to length 3: 1111; cancel = 13 edits (12 that store one of two "
+             "numeral scales into xfoo / xbar by 3 routes with 2 dimensions, remove) to length 2 x 2 scale configurations, the battery "
+             "of 12 cancelling calls at the start and after every step: 366. 7 (10 in shadow / fresh) probe strings + the "
+             "kxfoo/xfoo conversion factor + the listed-rows check per observed state; old_mix: at most 6 earlier quantities per "
+             "call, the whole battery (13 calls) for the oldest pair whose term or dimension changed, the 9 non-forking calls for the "
+             "others; scales/values symbolic except the scales of the cancel family (numerals, payloads symbolic)",
     "thorough": "the quick families (end, shadow, shadow-every, fresh to length 3; every to length 4: 1555) + deep = the 12 round-1 "
                 "operations to length 4 (22621) + ask-deep = 6 edits + 6 asks + copies to length 4 (30941) + shadow-deep = 10 "
-                "operations (shadow without define_unit / array creation / conversion) to length 4 (11111): 78108 histories",
+                "operations (shadow without define_unit / array creation / conversion / old_mix) to length 4 (11111) + mix-deep = 6 "
+                "edits + arr_create + old_mix to length 4 (4681) + cancel to length 3 (2 x 2380): 89718 histories",
 }
 OUTSIDE = ("histories longer than the bound; more than two user symbols present at the start and two added later; prefixes other "
            "than k / m / M in the shadowing and asking operations; stand-alone symbols spelled like a prefixed form that are "
            "themselves prefixable; offsets (always 0 here; C03/C08 treat offsets); unit-system objects created from an edited "
-           "registry (C10); to_json / pickle / copies of the registry itself (C11/C13); quotients whose factors cancel with "
-           "symbolic scales (kxfoo/xfoo through Unit.simplify needs concrete scales: covered only through "
-           "get_conversion_factor); arithmetic of an old unit whose symbol has been removed may be refused "
+           "registry (C10); to_json / pickle / copies of the registry itself (C11/C13); cancellation of factors with SYMBOLIC "
+           "scales (sympy expressions cannot hold z3 terms): calls whose unit rule cancels a pair are walked with numeral scales only "
+           "(family cancel: two configurations of two values, histories <= 2 quick / <= 3 thorough), and old * new of a string whose "
+           "own numerator and denominator have one dimension (kxfoo/xbar under a stand-alone kxfoo) is skipped; in the cancel family "
+           "memo keys that collide only for scale values other than the two of the configuration (e.g. a key rounded to few digits) "
+           "are not reached; epoch-mixed pairs under ufuncs other than + - == < * / (C04 walks the ufunc table over same-spelling "
+           "operands after modify); arithmetic of an old unit whose symbol has been removed may be refused "
            "(SymbolNotFoundError is accepted there); IEEE rounding (A1); concurrent use")
 
 ASSUMPTIONS = [
     "C12: the operation taken at step i is decoded from an auxiliary real symbol op_i (interval decoding); the explorer thereby enumerates all histories, one path each; the symbols have no meaning for unyt",
     "C12: obligations whose two sides z3's rewriter normalises to the same polynomial are counted as ground checks; the solver proper decides the quotient obligations (kxfoo/xfoo factor, quantity quotients), path feasibility (Unit.__eq__ forks) and every obligation whose sides differ",
     "C12: Unit.__hash__ hashes the repr of the table, so lru-cache hits between units of equal value but different symbolic name are not explored (such hits return a unit within unyt's own 1e-9 equality band, inside the 1e-6 band of the obligations)",
+    "C12: family cancel: unit cancellation writes the ratio of two scales into a sympy expression, which cannot hold a z3 term, so the scales of this family are numerals from two enumerated configurations and only the payloads are symbols; most of its obligations normalise to ground checks, the enumerated history (which edits, by which route, in which order, with the battery in between) is the deciding axis there",
     "C12: the listing methods return lists of names: their obligations are discrete comparisons on every explored path (replayed like the others); unit_system_id is a digest: a memoised id that differs from the fresh one is identified among the digests of the earlier tables of the history and the solver decides whether that table can differ from the current one",
 ]
 OPS = ["add_foo", "mod_foo_f", "mod_foo_q", "rm_foo", "def_foo", "mod_bar_f", "mk_atom", "mk_pref", "mk_comp", "arr_create",
@@ -87,11 +124,22 @@ KFOO, NEW = "k" + FOO, "xnew"
 ASKS = ["ask_item", "ask_in", "ask_prod", "ask_latex", "ask_lists", "ask_sysid"]
 # units / quantities made earlier in the history are used again: copied (every copy route), multiplied, raised to a power
 OLDS = ["old_copy", "old_arith"]
-WIDE = OPS + ASKS + OLDS
+# EPOCH-MIXED OPERANDS: a quantity made earlier in the history meets one made NOW from the same string against the same
+# registry object (same expression, same registry, possibly another scale / dimension: 'same unit' must be decided by value)
+MIX = ["old_mix"]
+WIDE = OPS + ASKS + OLDS + MIX
 SHADOW_EDITS = ["add_kfoo", "mod_kfoo_f", "rm_kfoo", "def_kfoo"]
-SHADOW = SHADOW_EDITS + ["add_foo", "mod_foo_f", "rm_foo", "mk_pref", "arr_create", "convert", "ask_item", "ask_in", "ask_prod"]
+SHADOW = SHADOW_EDITS + ["add_foo", "mod_foo_f", "rm_foo", "mk_pref", "arr_create", "convert", "ask_item", "ask_in", "ask_prod"] + MIX
 SHADOW_EVERY = SHADOW_EDITS[:3] + ["add_foo", "mod_foo_f", "rm_foo"]
-FRESH = ["add_new", "mod_new_f", "rm_new", "def_new", "mk_new", "mk_knew", "mk_cnew", "ask_new", "rm_foo"]
+FRESH = ["add_new", "mod_new_f", "rm_new", "def_new", "mk_new", "mk_knew", "mk_cnew", "ask_new", "rm_foo"] + MIX
+# CANCELLING CALLS REPEATED ACROSS EDITS (family 'cancel'): products / quotients whose unit rule cancels one factor of a compound
+# against the other operand read the rows of the individual factors (Unit.simplify -> registry[...]); sympy expressions cannot
+# hold z3 terms, so the scales of this family are numerals (guide, Rules) taken from a configuration (A, B): xfoo = A, xbar = B
+# at the start, every edit stores A or B - so pairs of edits exist that change the factors and keep scale and dimension of the
+# compound (xfoo A->B with xbar B->A; xfoo length->time with xbar time->length). Payloads stay symbolic.
+CANCEL_CONFIGS = {"int": (2.0, 3.0), "frac": (0.5, 1.25)}
+CANCEL = ["c_foo_f", "c_bar_f", "c_foo_addL", "c_foo_addT", "c_bar_addT", "c_bar_addL", "c_foo_qT", "c_bar_qL", "c_foo_dimT",
+          "c_bar_dimL", "c_foo_qdimT", "c_bar_qdimL", "rm_foo"]
 
 
 def sel(ctx, name, n):  # registry_common.sel (same decoding k <= o < k+1) with a bisection: log2(n) forks per step
@@ -123,6 +171,25 @@ def resolution_ok(res, exp):  # registry_common.resolution_ok with the fast path
         return False
     u = getattr(res[1], "units", res[1])
     return And(close(u.base_value, exp[0]), dims_equal(u.dimensions, exp[1]))
+
+
+def close3(a, b, extra):
+    """close() with an additional absolute band (sums / differences: relative to the operands, guide 'Lessons learnt')"""
+    return band_close(a, b, extra=extra)
+
+
+MIX_WHAT = {"add": "old + new", "radd": "new + old", "sub": "new - old", "eq": "old == new", "lt": "old < new", "mul": "old * new",
+            "div": "old / new", "to": "old.to(its own string)", "convert": "copy of old .convert_to_units(its own string)",
+            "to_value": "old.to_value(its own string)", "factor": "old.units.get_conversion_factor(new.units)",
+            "unit-eq": "old.units == new.units"}
+
+
+def same_term(a, b):
+    """syntactically the same term (no edit in between)"""
+    if isinstance(a, SymReal) or isinstance(b, SymReal):
+        d = z3.simplify(lift(a) - lift(b))
+        return z3.is_rational_value(d) and d.numerator_as_long() == 0
+    return a == b
 
 
 class P12(Probe):
@@ -167,18 +234,41 @@ MK = {"mk_atom": "atom", "mk_pref": "prefixed_k", "mk_comp": "compound", "mk_new
       "mk_cnew": "new_compound"}
 ATOMIC_STRINGS = (FOO, "k" + FOO, "m" + FOO)
 BY_STRING = {p.string: p for p in PROBES + NEW_PROBES + [KMUL, KDIV]}
+# strings of which old_mix makes a quantity at every call (an operand for later calls); quantities made by other operations
+# (arr_create: kxfoo**2/xbar, ask_prod: kxfoo*xbar, kxfoo/xbar) are mixed as well
+MIX_KINDS, MIX_KINDS_NEW = ("atom", "prefixed_k", "compound"), ("new_atom", "new_prefixed")
+MIX_CAP = 6  # operands made earlier that one old_mix call mixes (oldest first)
+# the cancelling battery: (label, left string, right string, operation). Factors as spelled: [(name, exponent)], evaluated by
+# World.names_term (model rows, prefix + prefixable model row, independent table of the few default symbols)
+SPELLED = {f"{FOO}*{BAR}": [(FOO, 1), (BAR, 1)], "m": [("m", 1)], "s": [("s", 1)], "1/m": [("m", -1)], "k" + FOO: [("k" + FOO, 1)],
+           FOO: [(FOO, 1)], f"{BAR}/{FOO}": [(BAR, 1), (FOO, -1)], f"k{FOO}*{BAR}/s": [("k" + FOO, 1), (BAR, 1), ("s", -1)]}
+BATTERY = [("div-m", f"{FOO}*{BAR}", "m", "div"), ("div-s", f"{FOO}*{BAR}", "s", "div"), ("mul-per-m", f"{FOO}*{BAR}", "1/m", "mul"),
+           ("rdiv-m", "m", f"{FOO}*{BAR}", "div"), ("k-ratio", "k" + FOO, FOO, "div"), ("mul-inv", "k" + FOO, f"{BAR}/{FOO}", "mul"),
+           ("idiv-m", f"{FOO}*{BAR}", "m", "idiv"), ("out-div-s", f"{FOO}*{BAR}", "s", "outdiv")]
+CANCEL_EDIT = {"c_foo_f": (FOO, "B", "float", None), "c_bar_f": (BAR, "A", "float", None),
+               "c_foo_addL": (FOO, "B", "add", "length"), "c_foo_addT": (FOO, "B", "add", "time"),
+               "c_bar_addT": (BAR, "A", "add", "time"), "c_bar_addL": (BAR, "A", "add", "length"),
+               "c_foo_qT": (FOO, "B", "quantity", "time"), "c_bar_qL": (BAR, "A", "quantity", "length"),
+               "c_foo_dimT": (FOO, "A", "add", "time"), "c_bar_dimL": (BAR, "B", "add", "length"),
+               "c_foo_qdimT": (FOO, "A", "quantity", "time"), "c_bar_qdimL": (BAR, "B", "quantity", "length")}
+UNIT_BATTERY = [("unit-div-m", f"{FOO}*{BAR}", "m"), ("unit-div-s", f"{FOO}*{BAR}", "s"), ("unit-k-ratio", "k" + FOO, FOO)]
 
 
 class World:
     """one live registry + its reference model + the descriptive log"""
 
-    def __init__(self, ctx, probe_set=None):
+    def __init__(self, ctx, probe_set=None, scales=None):
         self.ctx = ctx
         self.probes = PROBES if probe_set is None else probe_set
         self.unyt = ctx.mods["unyt"]
         self.D = self.unyt.dimensions
         self.reg = ctx.registry([])
-        s0, b0 = ctx.real("s0", pos=True), ctx.real("b0", pos=True)
+        self.scales = scales  # None: symbolic scales; (A, B): the numerals of the 'cancel' family
+        if scales is None:
+            s0, b0 = ctx.real("s0", pos=True), ctx.real("b0", pos=True)
+        else:
+            s0, b0 = scales
+        self.mix_kinds = MIX_KINDS + (MIX_KINDS_NEW if any(p.kind == "new_atom" for p in self.probes) else ())
         # the real public add(): exercised with symbolic scales through the A2 float shim
         self.reg.add(FOO, s0, self.D.length, prefixable=True)
         self.reg.add(BAR, b0, self.D.time)
@@ -377,7 +467,7 @@ class World:
                 ok = res[0] == "raise" and type(res[1]).__name__ == "UnitParseError"
             else:
                 ok = res[0] == "ok" and And(close(payload(res[1])[0] * res[1].units.base_value, x * y * exp[0]),
-                                            dims_equal(res[1].units.dimensions, exp[1]))
+                                            dims_equal(res[1].units.dimensions, exp[1]), self.label_ok(res[1].units))
                 if res[0] == "ok":
                     ctx.observe("op:arith", payload(res[1])[0])
             req(ctx, f"op:arith/{circ}", ok, lambda: self.info(expected="unknown symbol" if exp is None else f"SI x*y*{exp[0]!r}",
@@ -436,6 +526,10 @@ class World:
             self.old_copies()
         elif op == "old_arith":
             self.old_arith(i)
+        elif op == "old_mix":
+            self.old_mix(i)
+        elif op in CANCEL_EDIT:
+            self.cancel_edit(op)
         else:
             raise KeyError(op)
         if self.mc is not None:
@@ -491,7 +585,7 @@ class World:
             ok = res[0] == "raise" and type(res[1]).__name__ == "UnitParseError"
         else:
             ok = res[0] == "ok" and And(close(payload(res[1])[0] * res[1].units.base_value, val * exp[0]),
-                                        dims_equal(res[1].units.dimensions, exp[1]))
+                                        dims_equal(res[1].units.dimensions, exp[1]), self.label_ok(res[1].units))
             if res[0] == "ok":
                 ctx.observe(f"ask:{op}", payload(res[1])[0])
                 self.remember(res[1], probe.string)
@@ -600,6 +694,265 @@ class World:
                     self.construct(BY_STRING[s])
         ctx.observe("op:old_copy/n", n)
 
+    # ---------------------------------------------------------------- what a unit's own label says under the current contents
+    def name_term(self, name):
+        """(scale, dims) of one spelled atom: a model row, else one of the few default symbols of the independent table, else
+        SI prefix + prefixable model row; None = unknown"""
+        m = self.model
+        if name in m.t:
+            return m.t[name][0], m.t[name][1]
+        if name in TABLE:
+            return TABLE[name][0], getattr(self.D, TABLE[name][1])
+        for p in sorted(PREFIX, key=len, reverse=True):
+            if p and name.startswith(p) and name[len(p):] in m.t:
+                return m.atom(p, name[len(p):])
+        return None
+
+    def names_term(self, factors):
+        scale, dims = 1.0, 1
+        for name, e in factors:
+            a = self.name_term(name)
+            if a is None:
+                return None
+            scale = scale * a[0] ** e
+            dims = dims * a[1] ** e
+        return scale, dims
+
+    def label_ok(self, u):
+        """the unit attached to a result computed from operands made NOW is what its own label says under the registry's
+        current contents (a result labelled xbar whose scale is a former scale of xbar is a stale answer even when the SI
+        magnitude of the result happens to be right)"""
+        coeff, rest = u.expr.as_coeff_Mul()
+        factors = []
+        if rest != 1:
+            for b, e in rest.as_powers_dict().items():
+                if not getattr(e, "is_Integer", False):
+                    return False
+                factors.append((str(b), int(e)))
+        t = self.names_term(sorted(factors))
+        if t is None:
+            return False
+        return And(close(u.base_value, float(coeff) * t[0]), dims_equal(u.dimensions, t[1]))
+
+    # ---------------------------------------------------------------- epoch-mixed operands
+    def old_mix(self, i):
+        """every quantity made earlier in this history (at most MIX_CAP) meets a quantity made NOW from the same string against
+        the same registry: same expression, same registry object, and - after an edit - another scale or another dimension.
+        The old operand carries the term it had, the new one the current term; the battery walks one call per unit rule of the
+        binary route (+ both ways round, -, ==, <, *, /) and the conversion routes (.to(string), Unit.get_conversion_factor,
+        Unit ==). Oracle: SI magnitudes from the recorded old term and the model's current term."""
+        ctx, reg, m = self.ctx, self.reg, self.model
+        olds = list(self.oldq)[:MIX_CAP]
+        strings = [PK[k].string for k in self.mix_kinds]
+        strings += [s for _, _, _, _, s in olds if s not in strings]
+        new = {}
+        for j, s in enumerate(strings):
+            y = ctx.real(f"my{i}_{j}", nonzero=True)
+            res, exp, _ = self.construct(BY_STRING[s], lambda: ctx.quantity(y, s, reg))
+            if res[0] == "ok" and exp is not None:
+                new[s] = (res[1], y, exp[0], exp[1])
+        verdict, n = {}, 0
+        pairs = [o for o in olds if o[4] in new]
+        # the pair that gets the whole battery (comparisons and the quotient fork on the payloads / on the ratio of the scales):
+        # the oldest one between whose making and now the model's term or dimension changed; the others get the calls that
+        # fork only on 'same unit?' (+, -, conversions, Unit ==)
+        lead = next((o for o in pairs if not (same_term(o[2], new[o[4]][2]) and dims_equal(o[3], new[o[4]][3]))), pairs[0] if pairs else None)
+        for o in pairs:
+            q, x, bv, d0, s = o
+            n += 1
+            for name, ok in self.mix_pair(q, x, bv, d0, s, *new[s], full=o is lead):
+                verdict[name] = And(verdict.get(name, True), ok)
+        for name in sorted(verdict):
+            req(ctx, f"mix:{name}/after-{self.last_edit}", verdict[name], lambda: self.info(pairs=n, what=MIX_WHAT[name.split("/")[0]]))
+        ctx.observe("op:old_mix/n", n)
+
+    def mix_pair(self, q, x, bv, d0, s, nq, y, cur, d1, full=True):
+        same = dims_equal(d0, d1)
+        kind = "same-dims" if same else "other-dims"
+        X, Y = x * bv, y * cur
+
+        def si(r):
+            return payload(r)[0] * r.units.base_value
+
+        def raised(res, *names):
+            return res[0] == "raise" and type(res[1]).__name__ in names
+
+        def truth(res):
+            g = elements(res[1])[0]
+            return bool(g) if isinstance(g, (bool, np.bool_)) else g
+
+        out = []
+        for name, f, expected, dims in (("add", lambda: q + nq, X + Y, d0), ("radd", lambda: nq + q, X + Y, d1),
+                                        ("sub", lambda: nq - q, Y - X, d1)):
+            res = call(f)
+            if same:
+                ok = res[0] == "ok" and And(close3(si(res[1]), expected, band(X, Y)), dims_equal(res[1].units.dimensions, dims))
+            else:
+                ok = raised(res, "UnitOperationError")
+            out.append((f"{name}/{kind}", ok))
+        if full:
+            # old * new of a string with a numerator and a denominator factor of one dimension (kxfoo/xbar while a stand-alone
+            # kxfoo is a time): Unit.simplify would cancel them with symbolic scales inside a sympy expression (engine limit,
+            # OUTSIDE; the numeral-scale family 'cancel' walks cancellation)
+            text = [(p + a, e) for p, a, e in BY_STRING[s].text]
+            cancels = any(e1 * e2 < 0 and self.name_term(n1) is not None and self.name_term(n2) is not None
+                          and dims_equal(self.name_term(n1)[1], self.name_term(n2)[1]) for n1, e1 in text for n2, e2 in text)
+            out += self.mix_pair_forking(q, x, bv, d0, nq, y, cur, d1, same, kind, X, Y, si, raised, truth, cancels)
+        return out + self.mix_pair_conversions(q, bv, s, nq, cur, same, kind, X, raised)
+
+    def mix_pair_forking(self, q, x, bv, d0, nq, y, cur, d1, same, kind, X, Y, si, raised, truth, cancels):
+        out = []
+        res = call(lambda: q == nq)
+        if same:
+            ok = res[0] == "ok" and Or(Iff(truth(res), exact_eq(X, Y)), band_close(X, Y))
+        else:
+            ok = res[0] == "ok" and truth(res) is False
+        out.append((f"eq/{kind}", ok))
+        res = call(lambda: q < nq)
+        if same:
+            ok = res[0] == "ok" and Or(Iff(truth(res), X < Y), band_close(X, Y))
+        else:
+            ok = raised(res, "UnitOperationError")
+        out.append((f"lt/{kind}", ok))
+        if not cancels:
+            res = call(lambda: q * nq)
+            out.append((f"mul/{kind}", res[0] == "ok" and And(close(si(res[1]), X * Y), dims_equal(res[1].units.dimensions, d0 * d1))))
+        res = call(lambda: q / nq)
+        out.append((f"div/{kind}", res[0] == "ok" and And(close(si(res[1]), X / Y), dims_equal(res[1].units.dimensions, d0 / d1))))
+        return out
+
+    def mix_pair_conversions(self, q, bv, s, nq, cur, same, kind, X, raised):
+        """conversion routes: the old quantity expressed in the unit its own string names NOW"""
+        out = []
+        res = call(lambda: q.to(s))
+        if same:
+            ok = res[0] == "ok" and And(close(payload(res[1])[0] * cur, X), close(res[1].units.base_value, cur))
+        else:
+            ok = raised(res, "UnitConversionError")
+        out.append((f"to/{kind}", ok))
+
+        def in_place():
+            c = q.copy()
+            c.convert_to_units(s)
+            return c
+        res = call(in_place)
+        if same:
+            ok = res[0] == "ok" and And(close(payload(res[1])[0] * cur, X), close(res[1].units.base_value, cur))
+        else:
+            ok = raised(res, "UnitConversionError")
+        out.append((f"convert/{kind}", ok))
+        res = call(lambda: q.to_value(s))
+        if same:
+            ok = res[0] == "ok" and close(elements(res[1])[0] * cur, X)
+        else:
+            ok = raised(res, "UnitConversionError")
+        out.append((f"to_value/{kind}", ok))
+        res = call(lambda: q.units.get_conversion_factor(nq.units))
+        if same:
+            ok = res[0] == "ok" and And(close(res[1][0] * cur, bv), res[1][1] is None)
+        else:
+            ok = raised(res, "UnitConversionError")
+        out.append((f"factor/{kind}", ok))
+        res = call(lambda: q.units == nq.units)
+        if same:  # Unit.__eq__ is 'equal up to 1e-9': true only inside the 1e-6 band, true whenever the terms are equal
+            ok = res[0] == "ok" and And(Implies(bool(res[1]), band_close(bv, cur)), Implies(exact_eq(bv, cur), bool(res[1])))
+        else:
+            ok = res[0] == "ok" and not bool(res[1])
+        out.append((f"unit-eq/{kind}", ok))
+        return out
+
+    # ---------------------------------------------------------------- cancelling calls repeated across edits (numeral scales)
+    def cancel_edit(self, op):
+        ctx, reg, model, D = self.ctx, self.reg, self.model, self.D
+        sym, which, route, dn = CANCEL_EDIT[op]
+        v = self.scales[0] if which == "A" else self.scales[1]
+        present, pref = sym in model.t, sym == FOO
+        if route == "float":
+            res = call(reg.modify, sym, v)
+            self.outcome(op, res, None if present else "SymbolNotFoundError")
+            if present:
+                model.modify(sym, v, tag=repr(v))
+                self.log.edit(sym, "modify")
+        elif route == "add":
+            dims = getattr(D, dn)
+            res = call(reg.add, sym, v, dims, prefixable=pref)
+            self.outcome(op, res, None)
+            model.add(sym, v, dims, 0.0, pref, tag=repr(v) + dn)
+            self.log.edit(sym, "readd" if present else "add")
+        else:
+            dims = getattr(D, dn)
+            res = call(lambda: reg.modify(sym, ctx.quantity(v, BASE_OF_DIM[dn], reg)))
+            self.outcome(op, res, None if present else "SymbolNotFoundError")
+            if present:
+                model.modify(sym, v, dims, tag=repr(v) + dn)
+                self.log.edit(sym, "modify")
+
+    def fresh_operand(self, name, string, nonzero=False):
+        v = self.ctx.real(name, nonzero=nonzero)
+        return v, self.names_term(SPELLED[string]), call(lambda: self.ctx.quantity(v, string, self.reg))
+
+    def cancel_round(self, k):
+        """the battery of cancelling calls, every operand made NOW from its string: SI magnitude and dimensions of the result
+        from the model's current rows, and the unit attached to the result is what its label says now (label_ok). Run at the
+        start and after every step, so every call is repeated across every edit of the history with all memo layers warm."""
+        ctx, reg, Unit = self.ctx, self.reg, self.unyt.Unit
+        tag = f"after-{self.last_edit}"
+
+        def unknown(*rs):
+            return any(r[0] == "raise" and type(r[1]).__name__ == "UnitParseError" for r in rs)
+
+        for label, ls, rs, op in BATTERY:
+            x, tx, ql = self.fresh_operand(f"cx{k}{label}", ls)
+            y, ty, qr = self.fresh_operand(f"cy{k}{label}", rs, nonzero=True)
+            res = None
+            if tx is None or ty is None:
+                ok = unknown(ql, qr)
+            elif ql[0] != "ok" or qr[0] != "ok":
+                ok = False
+            else:
+                a, b = ql[1], qr[1]
+                if op == "div":
+                    res, val, exp = call(lambda: a / b), x / y, (tx[0] / ty[0], tx[1] / ty[1])
+                elif op == "mul":
+                    res, val, exp = call(lambda: a * b), x * y, (tx[0] * ty[0], tx[1] * ty[1])
+                elif op == "idiv":
+                    def idiv():
+                        c = a.copy()
+                        c /= b
+                        return c
+                    res, val, exp = call(idiv), x / y, (tx[0] / ty[0], tx[1] / ty[1])
+                else:
+                    o = a.copy()
+                    res, val, exp = call(lambda: np.divide(a, b, out=o)), x / y, (tx[0] / ty[0], tx[1] / ty[1])
+                    if res[0] == "ok":
+                        res = ("ok", o)
+                ok = res[0] == "ok" and And(close(payload(res[1])[0] * res[1].units.base_value, val * exp[0]),
+                                            dims_equal(res[1].units.dimensions, exp[1]), self.label_ok(res[1].units))
+                if res[0] == "ok":
+                    ctx.observe(f"cancel:{label}/{k}", payload(res[1])[0])
+            req(ctx, f"cancel:{label}/{tag}", ok,
+                lambda: self.info(call=f"({ls}) {op} ({rs})", got="-" if res is None else (type(res[1]).__name__ if res[0] == "raise" else f"{res[1]!r} with unit scale {res[1].units.base_value!r}"),
+                                  model={n: repr(v[0]) for n, v in self.model.t.items()}))
+        for label, ls, rs in UNIT_BATTERY:
+            tl, tr = self.names_term(SPELLED[ls]), self.names_term(SPELLED[rs])
+            res = call(lambda: (Unit(ls, registry=reg) / Unit(rs, registry=reg)).simplify())
+            if tl is None or tr is None:
+                ok = unknown(res)
+            else:
+                ok = res[0] == "ok" and And(close(res[1].base_value, tl[0] / tr[0]), dims_equal(res[1].dimensions, tl[1] / tr[1]),
+                                            self.label_ok(res[1]))
+            req(ctx, f"cancel:{label}/{tag}", ok,
+                lambda: self.info(call=f"(Unit({ls!r}) / Unit({rs!r})).simplify()", got=describe(res) + (" " + str(res[1]) if res[0] == "ok" else "")))
+        # base conversion of the compound (the cached E&M check and the base-equivalent route see the unit as a key)
+        x, tx, q = self.fresh_operand(f"cx{k}base", f"{FOO}*{BAR}")
+        if tx is None:
+            ok = unknown(q)
+        else:
+            res = call(lambda: q[1].in_mks())
+            ok = res[0] == "ok" and And(close(payload(res[1])[0] * res[1].units.base_value, x * tx[0]),
+                                        dims_equal(res[1].units.dimensions, tx[1]), self.label_ok(res[1].units))
+        req(ctx, f"cancel:in_mks/{tag}", ok, self.info)
+
     def old_arith(self, i):
         """arithmetic with units / quantities made earlier: their own term enters the result, not the registry's current one"""
         ctx, reg = self.ctx, self.reg
@@ -627,9 +980,11 @@ class World:
         ctx.observe("op:old_arith/n", n)
 
 
-def make_case(family, prefix, nmax, alphabet, every, cold, probe_set=None):
+def make_case(family, prefix, nmax, alphabet, every, cold, probe_set=None, config=None):
     def h(ctx):
-        w = World(ctx, probe_set)
+        w = World(ctx, probe_set, scales=None if config is None else CANCEL_CONFIGS[config])
+        if config is not None:
+            w.cancel_round(0)
         for i in range(nmax):
             if i < len(prefix):
                 op = prefix[i]
@@ -640,7 +995,9 @@ def make_case(family, prefix, nmax, alphabet, every, cold, probe_set=None):
                 op = alphabet[k - 1]
             w.step(i, op)
             w.check_old()
-            if every:
+            if config is not None:
+                w.cancel_round(i + 1)
+            elif every:
                 w.probe_round(cold=False)
         if not every:
             w.probe_round(cold=cold)
@@ -650,17 +1007,27 @@ def make_case(family, prefix, nmax, alphabet, every, cold, probe_set=None):
             w.mc["traces"] += 1
 
     n_ext = sum(len(alphabet) ** k for k in range(0, nmax - len(prefix) + 1))
-    return Case(f"C12/{family}/{'.'.join(prefix) or 'empty'}", h, bounds=f"all extensions to length {nmax}: {n_ext} histories",
+    name = family if config is None else f"{family}/{config}"
+    return Case(f"C12/{name}/{'.'.join(prefix) or 'empty'}", h, bounds=f"all extensions to length {nmax}: {n_ext} histories",
                 budget_s=3000, max_paths=200000, weight=n_ext)
 
 
-def family(name, alphabet, nmax, g, every, cold=True, probe_set=None):
+def family(name, alphabet, nmax, g, every, cold=True, probe_set=None, config=None):
     out = []
     for k in range(0, g):  # histories shorter than the grouping prefix: one case each
         for pre in itertools.product(alphabet, repeat=k):
-            out.append(make_case(name, pre, k, alphabet, every, cold, probe_set))
+            out.append(make_case(name, pre, k, alphabet, every, cold, probe_set, config))
     for pre in itertools.product(alphabet, repeat=g):
-        out.append(make_case(name, pre, nmax, alphabet, every, cold, probe_set))
+        out.append(make_case(name, pre, nmax, alphabet, every, cold, probe_set, config))
+    return out
+
+
+def cancel_family(nmax, g):
+    """numeral scales (sympy cannot cancel symbolic ones), symbolic payloads: the cancelling battery at the start and after every
+    step of every history over the CANCEL edits, the probe round at the end"""
+    out = []
+    for config in CANCEL_CONFIGS:
+        out += family("cancel", CANCEL, nmax, g, every=False, cold=False, config=config)
     return out
 
 
@@ -671,18 +1038,21 @@ def cases(tier, mods):
         # the widest family is cut into cases by its first TWO operations (21 histories each): a case stays far below the
         # runner's hard wall limit per case on a loaded machine, and the workers are evenly loaded
         return (family("end", WIDE, 3, 2, every=False) + family("every", EDITS, 3, 1, every=True)
-                + family("shadow", SHADOW, 3, 1, every=False, probe_set=allp)
+                + family("shadow", SHADOW, 3, 2, every=False, probe_set=allp)
                 + family("shadow-every", SHADOW_EVERY, 3, 1, every=True, probe_set=allp)
-                + family("fresh", FRESH, 3, 1, every=False, probe_set=allp))
+                + family("fresh", FRESH, 3, 2, every=False, probe_set=allp)
+                + cancel_family(2, 1))
     # thorough: the round-1 alphabet one step deeper; the widened alphabet to length 3; reduced alphabets around the new
     # regions (asks / copies, shadowing symbol) to length 4
     return (family("deep", OPS, 4, 2, every=False) + family("every", EDITS, 4, 1, every=True)
             + family("end", WIDE, 3, 2, every=False)
             + family("ask-deep", EDITS + ASKS + ["old_copy"], 4, 2, every=False)
-            + family("shadow", SHADOW, 3, 1, every=False, probe_set=allp)
-            + family("shadow-deep", [o for o in SHADOW if o not in ("def_kfoo", "convert", "arr_create")], 4, 2, every=False, probe_set=allp)
+            + family("mix-deep", EDITS + ["arr_create"] + MIX, 4, 2, every=False)
+            + family("shadow", SHADOW, 3, 2, every=False, probe_set=allp)
+            + family("shadow-deep", [o for o in SHADOW if o not in ("def_kfoo", "convert", "arr_create", "old_mix")], 4, 2, every=False, probe_set=allp)
             + family("shadow-every", SHADOW_EVERY, 3, 1, every=True, probe_set=allp)
-            + family("fresh", FRESH, 3, 1, every=False, probe_set=allp))
+            + family("fresh", FRESH, 3, 2, every=False, probe_set=allp)
+            + cancel_family(3, 1))
 
 
 CONFORM = {"quick": 20, "thorough": 60}
